@@ -1601,3 +1601,45 @@ func init() {
 	prop("C01", "C03-R9")
 	prop("C20", "C03-R9")
 }
+
+func init() {
+	reg("C11-R10", "no ON clause is dropped: a query with several JOIN ... ON ... clauses reaches the join visitor once per ON condition; in JoinVisitor.Enter a store to QueryInfo.OnExpressions of a value that is not built from the previous contents of that field is unreachable once the previous contents are assumed to hold a condition (the field, its Left and its Right not nil) — the conditions are combined, not replaced; the optimizer then ANDs the field into the WHERE conjunction (C11-R7 covers that side)", func(w *World, r *Report) {
+		fn := w.Fn("parser", "JoinVisitor", "Enter")
+		fld := w.Field("parser", "QueryInfo", "OnExpressions")
+		isOldLoad := func(v ssa.Value) bool { return fieldLoadOf(v, fld) }
+		fromOld := func(v ssa.Value) bool { return DependsOn(v, isOldLoad) }
+		var overwrites []ssa.Instruction
+		n := 0
+		for _, b := range fn.Blocks {
+			for _, in := range b.Instrs {
+				st, ok := in.(*ssa.Store)
+				if !ok {
+					continue
+				}
+				fa, ok := st.Addr.(*ssa.FieldAddr)
+				if !ok {
+					continue
+				}
+				if sst, ok := derefStruct(fa.X.Type()); !ok || sst.Field(fa.Field) != fld {
+					continue
+				}
+				n++
+				if !fromOld(st.Val) {
+					overwrites = append(overwrites, in)
+				}
+			}
+		}
+		r.Floor("stores to QueryInfo.OnExpressions in JoinVisitor.Enter", n, 1)
+		isOver := func(x ssa.Instruction) bool {
+			for _, o := range overwrites {
+				if o == x {
+					return true
+				}
+			}
+			return false
+		}
+		wit := (&PathQ{Fn: fn, Cut: []EdgeCut{nilCompareCut(fromOld, true)}, Target: isOver}).FromEntry()
+		r.Check(wit == nil, "JoinVisitor.Enter:on-conditions-are-combined", "an ON condition never replaces an earlier one", "with an earlier ON condition present the field is overwritten: "+w.DescribeWitness(fn, wit)+" — `a JOIN b ON .. JOIN c ON ..` keeps only the last condition and returns the cross product of a and b")
+	})
+	prop("C11", "C11-R10")
+}
